@@ -92,6 +92,14 @@ func (h *history) respond(md *mMeta, route func(*mWire), what string) {
 // failed: a delivery that fails (writer error, short write, template failing part-way); nothing is checked
 // on it, it only leaves its traces for the following steps to stumble over
 func (h *history) failed(md *mMeta, mode string) {
+	// several in a row: whatever a failed delivery leaves behind (pooled buffers, caches) is left behind
+	// wherever the following delivery may pick it up
+	for n := 0; n < 3; n++ {
+		h.failedOnce(md, mode)
+	}
+}
+
+func (h *history) failedOnce(md *mMeta, mode string) {
 	in, markers := h.input(md, nil)
 	h.step++
 	switch mode {
@@ -145,6 +153,9 @@ func byURL(u string) func(*mWire) { return func(w *mWire) { w.ACSURL = u } }
 // the key-rotation moves; otherwise (C06) more of the signing-rotation moves.
 func runHistories(c *Ctx, emit seqEmit, rounds int) {
 	r := c.Rng
+	// no collection during a history: what the library keeps between two deliveries (pools, caches) stays
+	// kept, as in a busy server between two collections
+	defer debug.SetGCPercent(debug.SetGCPercent(-1))
 	fails := []string{"write-error", "short-write", "template"}
 	for k := 0; k < rounds; k++ {
 		// --- deliveries that fail, followed by deliveries to another SP / user ---
